@@ -113,3 +113,14 @@ Theorem C06_guard_nonvacuous :
     [[1; 5; 7; 9]; [2; 8; 6; 1; 9; 7; 5]; [7; 0; 1]; [1; 9; 7; 5]]%Z.
 Proof. exact guarded_example. Qed.
 Print Assumptions C06_guard_nonvacuous.
+
+(* (8) the histories that were the add and subseq findings are inside the guard after the repairs and give
+   the lists the property demands: two lists added to the same list keep their own last element; modifying a
+   subseq result leaves the argument alone *)
+Theorem C06_repaired_examples :
+  guard_ops 4 (init 4) ex_add_siblings = true /\
+  map (vcontents (run_ops (init 4) ex_add_siblings)) [2; 3] = [[1; 2; 3; 4; 5]; [1; 2; 3; 4; 6]]%Z /\
+  guard_ops 4 (init 4) ex_subseq_copy = true /\
+  map (vcontents (run_ops (init 4) ex_subseq_copy)) [0; 1] = [[1; 2; 3]; [7; 3]]%Z.
+Proof. exact repaired_examples. Qed.
+Print Assumptions C06_repaired_examples.
